@@ -1,6 +1,7 @@
 import BeyondVerif.Lemmas.Vec3
 import BeyondVerif.Lemmas.Dkep
 import BeyondVerif.Model.ManWin
+import BeyondVerif.Model.FrameReg
 import Mathlib.Tactic.NormNum
 
 /-!
@@ -171,6 +172,37 @@ theorem orbit_frame_roundtrip_back (t : Tag) (ref y : St) (h : NonDeg ref.p ref.
     frameTo t ref (frameFrom t ref y) = y := by
   unfold frameFrom frameTo
   simp only [sub_add_V3, toLocal_mul_tMul t _ _ _ h]
+
+/-! ### Registration of attached frames: a name means its latest registration -/
+section registry
+open BeyondVerif.FrameReg
+
+/-- **Registering a name again rebinds it**: conversions through `name` use the orbit and orientation of the
+latest registration, whatever was registered (or converted) under that name before. -/
+theorem reregistration_wins (r : Reg) (name : String) (e : Entry) : lookup (register r name e) name = some e := by
+  simp [register, lookup]
+
+/-- … and leaves every other name bound as it was. -/
+theorem registration_local (r : Reg) (name other : String) (e : Entry) (h : name ≠ other) :
+    lookup (register r name e) other = lookup r other := by
+  simp [register, lookup, h]
+
+/-- **Conversions leave no trace**: the binding a conversion uses is the one given by the registrations that precede
+it; conversions performed before it (at any date, through any name) do not matter. -/
+theorem conversions_leave_no_trace (r : Reg) (ops : List Op) (name : String) :
+    run r (ops ++ [Op.conv name]) = run r ops ++ [lookup (state r (ops.filter (fun o => match o with | Op.reg .. => true | Op.conv _ => false))) name] := by
+  induction ops generalizing r with
+  | nil => simp [run, state]
+  | cons o rest ih =>
+    cases o with
+    | reg n e => simp [run, state, ih]
+    | conv n => simp [run, state, ih]
+
+/-- non-vacuity: QSW frame on orbit 0, a conversion, the same name re-registered TNW on orbit 1, a conversion -/
+example : run [] [Op.reg "tgt" ⟨"QSW", 0⟩, Op.conv "tgt", Op.reg "tgt" ⟨"TNW", 1⟩, Op.conv "tgt"]
+    = [some ⟨"QSW", 0⟩, some ⟨"TNW", 1⟩] := by decide
+
+end registry
 
 /-! ## 4. Maneuver windows in a numerical propagation (integer microseconds) -/
 section windows
